@@ -71,7 +71,8 @@ theorem readOnly_genVid3 (d : Nat) : ReadOnly (genVid3 (X := X) d) := by
   exact ReadOnly.bind (ReadOnly.rB _ _) fun _ => ReadOnly.bind (ReadOnly.rB _ _) fun _ =>
     ReadOnly.bind (ReadOnly.rB _ _) fun _ => ReadOnly.bind (ReadOnly.rB _ _) fun _ =>
     ReadOnly.bind (ReadOnly.rB _ _) fun _ => ReadOnly.bind (ReadOnly.rB _ _) fun _ =>
-    ReadOnly.bind (ReadOnly.rB _ _) fun _ => ReadOnly.bind (ReadOnly.rB _ _) fun _ => ReadOnly.pure _
+    ReadOnly.bind (ReadOnly.rB _ _) fun _ => ReadOnly.bind (ReadOnly.rB _ _) fun _ =>
+    ReadOnly.bind (ReadOnly.rB _ _) fun _ => ReadOnly.pure _
 
 theorem readOnly_vertexId3 (n d : Nat) : ReadOnly (vertexId3 (X := X) n d) :=
   readOnly_popLoop _ readOnly_genVid3 _ _ _ _
